@@ -130,6 +130,20 @@ func (r *c18Reader) Read(p []byte) (int, error) {
 	case "one":
 		n = 1
 		withEOF = !r.eofSep && n == rem
+	case "zero1", "zero64":
+		// every other call returns (0, nil): legal for an io.Reader ("discouraged"), seen with
+		// non-blocking sources; the calls in between return 1 / up to 64 bytes
+		if idx%2 == 0 {
+			return 0, nil
+		}
+		n = 1
+		if r.mode == "zero64" && max > 1 {
+			n = max
+			if n > 64 {
+				n = 64
+			}
+		}
+		withEOF = !r.eofSep && n == rem
 	default:
 		withEOF = !r.eofSep && n == rem
 	}
@@ -477,6 +491,15 @@ func TestVerifC18(t *testing.T) {
 		if mine() {
 			// one byte at a time, and truncation at every box boundary +-1 and in the middle of every box
 			for _, sep := range []bool{false, true} {
+				for _, zm := range []string{"zero1", "zero64"} {
+					cz := c18Case{name: "realzero/" + zm + "/" + name, data: data, bufSize: 16, mode: zm, eofSep: sep, errAt: -1, cbErrAt: -1, wellFormed: true}
+					rep.Outcome(c18Run(cz, func(sig, msg string) {
+						rep.Violate(strings.SplitN(sig, ":", 2)[0], sig, msg, map[string]any{"case": cz.name})
+					}, rep))
+					rep.AddExecs(1)
+					rep.AddStates(1)
+					rep.AddTrans(1)
+				}
 				c := c18Case{name: "real1/" + name, data: data, bufSize: 16, mode: "one", eofSep: sep, errAt: -1, cbErrAt: -1, wellFormed: true}
 				rep.Outcome(c18Run(c, func(sig, msg string) {
 					rep.Violate(strings.SplitN(sig, ":", 2)[0], sig, msg, map[string]any{"case": c.name})
